@@ -59,8 +59,31 @@ pub fn run(case: &Case) -> CaseReport {
     e.run_ops(&case.ops, &mut rep);
     e.run_ops(&[HOp::Commit], &mut rep);
     let commits: Vec<String> = e.all_commits().into_iter().collect();
+    // every commit as it is, and - for commits whose note attests files - once more with
+    // `--ignore <one attested path>`: the ignore filter must be applied to the diff totals
+    // and to the accepted lines alike
+    let mut jobs: Vec<(String, Option<String>)> = Vec::new();
     for c in &commits {
-        let o = e.w.gai(&["stats", c, "--json"]);
+        jobs.push((c.clone(), None));
+        if let Some(Ok(n)) = e.w.note(c) {
+            let k = jobs.len();
+            if let Some(f) = n.files.get(k % n.files.len().max(1)) {
+                // (only names whose meaning as a glob pattern and as a command-line word is unambiguous)
+                if !f.path.starts_with('-') && f.path.chars().all(|ch| ch.is_ascii_alphanumeric() || "_./-".contains(ch)) {
+                    jobs.push((c.clone(), Some(f.path.clone())));
+                }
+            }
+        }
+    }
+    for (c, ign) in &jobs {
+        let is_ignored = |p: &str| is_default_ignored(p) || ign.as_deref() == Some(p);
+        let o = match ign {
+            None => e.w.gai(&["stats", c, "--json"]),
+            Some(p) => {
+                rep.class("stats-with-ignore-option");
+                e.w.gai(&["stats", c, "--json", "--ignore", p])
+            }
+        };
         if !o.ok() {
             rep.violate("C19:stats-failed", format!("git-ai stats {c} --json: exit {} {}", o.code, o.err()));
             continue;
@@ -94,7 +117,7 @@ pub fn run(case: &Case) -> CaseReport {
             let r = r.trim_start_matches('\n');
             let mut it = r.splitn(3, '\t');
             let (Some(a), Some(d), Some(p)) = (it.next(), it.next(), it.next()) else { continue };
-            if is_default_ignored(p) {
+            if is_ignored(p) {
                 touched_ignored = true;
                 continue;
             }
@@ -105,7 +128,12 @@ pub fn run(case: &Case) -> CaseReport {
             added += a.parse::<i64>().unwrap_or(0);
             deleted += d.parse::<i64>().unwrap_or(0);
         }
-        let ctx = format!("commit {} [{}]", &c[..8], e.produced_by.get(c).cloned().unwrap_or("base"));
+        let ctx = format!(
+            "commit {} [{}]{}",
+            &c[..8],
+            e.produced_by.get(c).cloned().unwrap_or("base"),
+            ign.as_ref().map(|p| format!(" with --ignore {p:?}")).unwrap_or_default()
+        );
         let g_added = num(&st, "git_diff_added_lines").unwrap_or(-1);
         let g_deleted = num(&st, "git_diff_deleted_lines").unwrap_or(-1);
         if g_added != added || g_deleted != deleted {
@@ -129,7 +157,7 @@ pub fn run(case: &Case) -> CaseReport {
                     files.insert(f.path.clone());
                 }
                 for p in files {
-                    if is_default_ignored(&p) {
+                    if is_ignored(&p) {
                         continue;
                     }
                     let added_lines = e.w.added_lines(&parent, c, &p);
